@@ -42,7 +42,8 @@ Lemma handle_now s src cid m ls : now (fst (fst (handle st s src cid m ls))) = n
 Proof.
   destruct m; simpl; try reflexivity.
   - destruct (aget ident (creates s)) as [cc|].
-    + match goal with |- context [match ?x with _ => _ end] => destruct x end; [|reflexivity].
+    + destruct (ahas (cc_from cc) (relays s)); [reflexivity|].
+      destruct (aget (cc_from cc) (exits s)); [|reflexivity].
       rewrite send_cell_now. reflexivity.
     + destruct (aget cid (retries s)) as [rt|]; [|reflexivity].
       destruct (rt_ident rt =? ident); [apply ours_now | reflexivity].
@@ -64,6 +65,7 @@ Proof.
   - destruct (aget ident (creates s)) as [cc|] eqn:Ecc.
     + set (s1 := set_creates (adel ident (creates s)) s).
       assert (X1 : ext s s1) by (apply ext_set_creates; exact Hs).
+      destruct (ahas (cc_from cc) (relays s)); [apply W; exact X1|].
       destruct (aget (cc_from cc) (exits s)) as [e|] eqn:Ee; [|apply W; exact X1].
       apply W.
       eapply ext_step; [exact Hs | exact X1|]. intro Hs1.
